@@ -84,7 +84,13 @@ var optSpecs = []optSpec{
 		}
 	}},
 	{"SkipTrailingSlashNormalization", func(r *Rand) (url.ParserOption, int, int) { return url.WithSkipTrailingSlashNormalization(), 0, 0 }},
-	{"EncodingOverride", func(r *Rand) (url.ParserOption, int, int) { return url.WithEncodingOverride(charmap.ISO8859_1), 0, 0 }},
+	{"EncodingOverride", func(r *Rand) (url.ParserOption, int, int) {
+		if r.P(30) {
+			// not only Latin-1: an EBCDIC code page (not ASCII-compatible), a Windows and a Cyrillic one, the DOS one
+			return url.WithEncodingOverride(charmapsUsed[1+r.N(len(charmapsUsed)-1)]), 0, 0
+		}
+		return url.WithEncodingOverride(charmap.ISO8859_1), 0, 0
+	}},
 	{"PathPercentEncodeSet", func(r *Rand) (url.ParserOption, int, int) {
 		return url.WithPathPercentEncodeSet(randSet(r, url.PathPercentEncodeSet)), 0, 0
 	}},
